@@ -277,10 +277,7 @@ def spaces(tier, variant, seed):
             i += 1
             if i % 4 != part:
                 continue
-            try:
-                if not api.precondition(fn, args):
-                    continue
-            except Exception:
+            if not api.precondition(fn, args):      # an exception here is a harness error and must surface, never skip cases silently
                 continue
             yield (name, args)
 
